@@ -213,6 +213,82 @@ impl<O: Oracle> Space for Pairs<O> {
     }
 }
 
+/// k = 3 over the given site triples; full value product.
+pub struct Triples<O: Oracle> {
+    pub p: PreparedSkeleton,
+    pub triples: Vec<(usize, usize, usize)>,
+    pub cum: Vec<u64>,
+    pub oracle: O,
+    pub label: &'static str,
+}
+impl<O: Oracle> Triples<O> {
+    pub fn new(p: PreparedSkeleton, triples: Vec<(usize, usize, usize)>, oracle: O, label: &'static str) -> Triples<O> {
+        let mut cum = vec![0u64];
+        for (i, j, k) in &triples {
+            cum.push(cum.last().unwrap() + (p.vals[*i].len() * p.vals[*j].len() * p.vals[*k].len()) as u64);
+        }
+        Triples { p, triples, cum, oracle, label }
+    }
+    fn decode(&self, idx: u64) -> [(usize, u64); 3] {
+        let ti = match self.cum.binary_search(&idx) {
+            Ok(mut p) => {
+                while p + 1 < self.cum.len() && self.cum[p + 1] == idx {
+                    p += 1;
+                }
+                p
+            }
+            Err(p) => p - 1,
+        };
+        let (i, j, k) = self.triples[ti];
+        let mut r = idx - self.cum[ti];
+        let nk = self.p.vals[k].len() as u64;
+        let nj = self.p.vals[j].len() as u64;
+        let vk = self.p.vals[k][(r % nk) as usize];
+        r /= nk;
+        let vj = self.p.vals[j][(r % nj) as usize];
+        r /= nj;
+        [(i, self.p.vals[i][r as usize]), (j, vj), (k, vk)]
+    }
+}
+impl<O: Oracle> Space for Triples<O> {
+    fn name(&self) -> String {
+        format!("{}: k=3 deviations of {} ({} site triples)", self.label, self.p.sk.name, self.triples.len())
+    }
+    fn size(&self) -> u64 {
+        *self.cum.last().unwrap()
+    }
+    fn describe(&self, idx: u64) -> Value {
+        let d = self.decode(idx);
+        let devs: Vec<Value> = d.iter().map(|(s, v)| {
+            let st = &self.p.sk.sites[*s];
+            json!({"site": st.role, "offset": st.off, "width": st.width, "valid": st.valid, "value": format!("{:#x}", v)})
+        }).collect();
+        json!({"skeleton": self.p.sk.name, "deviations": devs})
+    }
+    fn run(&self, idx: u64, out: &mut Outcome) {
+        let d = self.decode(idx);
+        let mut buf = self.p.sk.bytes.clone();
+        for (s, v) in d {
+            self.p.apply(&mut buf, s, v);
+        }
+        self.oracle.check(&self.p.sk, &buf, out);
+    }
+}
+
+/// All triples among the sites whose role is in `roles`.
+pub fn triples_of(p: &PreparedSkeleton, roles: &[&str]) -> Vec<(usize, usize, usize)> {
+    let idx: Vec<usize> = p.sk.sites.iter().enumerate().filter(|(_, s)| roles.contains(&s.role.as_str())).map(|(i, _)| i).collect();
+    let mut out = Vec::new();
+    for a in 0..idx.len() {
+        for b in a + 1..idx.len() {
+            for c in b + 1..idx.len() {
+                out.push((idx[a], idx[b], idx[c]));
+            }
+        }
+    }
+    out
+}
+
 /// Pairs the code couples: sites of the same group (one header), ehdr x everything in a header
 /// group, a section body with its own header, shdr x the shdr its sh_link designates.
 pub fn coupled_pairs(p: &PreparedSkeleton, header_only: bool) -> Vec<(usize, usize)> {
